@@ -7,8 +7,8 @@ open Kripke
 
 section
 variable {E : Env} (hE : EnvOK E) (hG : GraphWF E.G) {K : SemCtx} (hK : CtxOK E K) {U0 : CSet}
-  (hKS : KeySem E K U0) (hKW : KeyWild E K U0) (hA : C12.GraphAsync E.G) (hattr : AttrSpec E)
-include hE hG hK hKS hKW hA hattr
+  (hKS : KeySem E K U0) (hKW : KeyWild E K U0) (hA : C12.GraphAsync E.G)
+include hE hG hK hKS hKW hA
 
 theorem evalNode_sound :
     ∀ t U ds ctx, GoodQ E K U0 t U ds → ctx.fvd = fvdOf ds → CacheOK E K U0 ctx →
@@ -100,7 +100,7 @@ theorem evalNode_sound :
         have hdk : ds.length < E.G.k := hw.2.1
         have hs : Sem E (E.tab (Ops.attractorsOf E U)) U (sat E.G K (.hyb op v dom c)) := by
           rw [hx]
-          exact Sem.tab hE (C12.attractor_shortcut_correct hE hG hq.unit x hvd hdk K _ (hattr U))
+          exact Sem.tab hE (C12.attractor_shortcut_correct hE hG hq.unit x hvd hdk K _ (attrSpec hE hG U))
         have := store_ok hE hG hK hKS hKW hq hkey hnw hsave hs hc
         refine ⟨_, _, ?_, hs, this.1, this.2⟩
         unfold Eval.evalNode
